@@ -19,7 +19,28 @@ TRUSTED = ["CPython 3.12", "spverif.ref.cfdp.file_data/decode_pdu", "spverif.ref
 ASSUMPTIONS = ["oracle = independent model of CCSDS 727.0-B-5 5.3 (spverif/ref/cfdp.py)"]
 
 
-def k_fd(ctx, cfg, p, model_fed=False):
+ISO = C.Isolation()
+
+
+def build_via_setters(cfg, p, seed):
+    import random
+    X = C.lib()
+    r = random.Random(seed)
+    q = dict(p)
+    q["data"] = r.choice(("", "aa", "bb" * 40))
+    q["seg_meta"] = r.choice((None, [1, ""], [2, "0102"], [3, "11" * 63]))
+    obj = C.build("file_data", cfg, q)
+    steps = [lambda: setattr(obj, "file_data", bytes.fromhex(p["data"])),
+             lambda: setattr(obj, "segment_metadata", None if p["seg_meta"] is None else X.SegmentMetadata(X.RecordContinuationState(p["seg_meta"][0]), bytes.fromhex(p["seg_meta"][1])))]
+    if r.random() < 0.5:
+        obj.pack()
+    r.shuffle(steps)
+    for fn in steps:
+        fn()
+    return obj
+
+
+def k_fd(ctx, cfg, p, model_fed=False, via="ctor", seed=0):
     X = C.lib()
     data = bytes.fromhex(p["data"])
     case = {"k": "fd", "cfg": cfg, "p": p if len(data) <= 64 else dict(p, data=p["data"][:32] + "..", data_len=len(data)), "model_fed": model_fed}
@@ -35,7 +56,12 @@ def k_fd(ctx, cfg, p, model_fed=False):
     if sm is not None:
         ctx.table("meta_len_x_state", f"{len(sm[1]) // 2}/{sm[0]}")
     want = C.ref_octets("file_data", cfg, p)
-    ok, pdu = attempt(C.build, "file_data", cfg, p)
+    if via == "setters":
+        ok, pdu = attempt(build_via_setters, cfg, p, seed)
+        feat += "/after_setters"
+        case["via"], case["seed"] = via, seed
+    else:
+        ok, pdu = attempt(C.build, "file_data", cfg, p)
     if not ctx.check("fd.construct", ok, "raised", exc_sig(pdu) if not ok else "", case, error=repr(pdu)):
         return
     ok, raw = attempt(pdu.pack)
@@ -72,6 +98,8 @@ def k_fd(ctx, cfg, p, model_fed=False):
     ctx.check("fd.roundtrip", u.packet_len == len(want), "packet_len", feat, case, observed=u.packet_len, expected=len(want))
     ok, rp = attempt(u.pack)
     ctx.check("fd.roundtrip", ok and bytes(rp) == want, "repack", feat, case, observed=bytes(rp)[:80] if ok else repr(rp))
+    ISO.remember(u, want, "file_data")
+    ISO.recheck(ctx, "fd.decoded_objects_independent", case)
 
 
 def _where(cfg, a, b):
@@ -180,6 +208,9 @@ def run(ctx):
     for _ in range(ctx.n(4000, 400_000)):
         cfg = C.rand_cfg(r, segctrl=True)
         k_fd(ctx, cfg, C.rand_params(r, "file_data", cfg), model_fed=r.random() < 0.5)
+    for j in range(ctx.n(2500, 200_000)):
+        cfg = C.rand_cfg(r, segctrl=True)
+        k_fd(ctx, cfg, C.rand_params(r, "file_data", cfg), via="setters", seed=ctx.seed * 1_000_003 + ctx.shard[0] * 100_003 + j)
     # offsets that do not fit
     for large, bad in ((0, (2 ** 32, 2 ** 63)), (1, (2 ** 64, 2 ** 65))):
         for v in bad:
